@@ -5,5 +5,5 @@ cd "$(dirname "$0")/.."
 export CARGO_NET_OFFLINE=true
 (cd lean && lake build)
 ln -sfn "${PXV_REPO:-/repo}" .repo
-(cd harness && cargo build -p rt)
+(cd harness && cargo build --workspace)
 echo setup-ok
